@@ -66,6 +66,23 @@ def run(ctx):
             texts.append(txt)
         except Exception:
             rejects += 1
+    # ---- fields named like keywords, reached through the event's own alias: the event constructor rewrites `@A.f` to the own field
+    # `f`, which the printer writes bare - a text the grammar reads differently when `f` is a word that starts an atom or a logic
+    # operand (`not forall exists True False INF NAN PI E`); the other reserved words are controls
+    atom_kw = ['not', 'forall', 'exists', 'True', 'False', 'INF', 'NAN', 'PI', 'E']
+    own_kw_texts = set()
+    kwfam_texts = set()      # the whole family, controls included: reserved words as field names are outside `Raw.printable`
+    for kw in atom_kw + ['and', 'or', 'to', 'in', 'implies', 'iff', 'x', 'notify']:
+        for body in (f'@A.{kw} > 0', f'x + @A.{kw} > 0', f'b and @A.{kw}', f'abs(@A.{kw}) > 0', f'@A.{kw}.y = 1', f'@A.{kw}[0] > 0',
+                     f'forall i in xs: @A.{kw} > @i'):
+            for txt in (f'globally: no t as A {{{body}}}', f'after s as B {{@B.{kw} = 1}}: t {{{body.replace("@A", "@B")}}} causes u'):
+                try:
+                    items.append(('property', txt, pp, dump_property, pp.parse(txt)))
+                    kwfam_texts.add(txt)
+                    if kw in atom_kw:
+                        own_kw_texts.add(txt)
+                except Exception:
+                    rejects += 1
     for _ in range(60 if ctx.quick else 600):
         k = rng.randrange(1, 5)
         txt = '\n\n'.join(rng.choice(texts) for _ in range(k))
@@ -82,13 +99,14 @@ def run(ctx):
         w = dumper(ast)
         lines.append(dumps([S('printany'), w]))
         inp = {'entry': entry, 'source': src, 'printed': s1}
+        fam = ':own-alias-field-named-like-keyword' if src in own_kw_texts else ''
         try:
             ast2 = parser.parse(s1)
         except Exception as e:
-            violations.append({'input': inp, 'what': f'the printed text does not parse back ({classify_exception(e)})', 'signature': 'print-unparseable'})
+            violations.append({'input': inp, 'what': f'the printed text does not parse back ({classify_exception(e)})', 'signature': 'print-unparseable' + fam})
             continue
         if ast2 != ast or canon_str(_nometa(dumper(ast2))) != canon_str(_nometa(w)):
-            violations.append({'input': inp, 'reparsed': str(ast2), 'what': 'the printed text parses to a different AST', 'signature': 'roundtrip-differs'})
+            violations.append({'input': inp, 'reparsed': str(ast2), 'what': 'the printed text parses to a different AST', 'signature': 'roundtrip-differs' + fam})
             continue
         if hash(ast2) != hash(ast):
             violations.append({'input': inp, 'what': 'equal ASTs with different hashes', 'signature': 'hash-differs'})
@@ -116,7 +134,7 @@ def run(ctx):
         rt_items = [(entry, src, ast) for entry, src, _, _, ast in items if entry in ('expression', 'predicate')]
         rt_items += [(entry, str(ast), ast) for entry, src, _, _, ast in items if entry in ('expression', 'predicate') and not (entry == 'predicate' and ast.is_vacuous)]
         # property level (Props/C06c): the printed form of every parsed property
-        rt_items += [('property', str(ast), ast) for entry, src, _, _, ast in items if entry == 'property']
+        rt_items += [('property', str(ast), ast) for entry, src, _, _, ast in items if entry == 'property' and src not in kwfam_texts]
         am = ctx.driver.run_parallel([dumps([S('rtcheck'), S(entry), src]) for entry, src, _ in rt_items])
         for (entry, src, ast), a in zip(rt_items, am):
             x = loads(a)
